@@ -84,27 +84,54 @@ theorem prod_dr_exp (a : Vec α (A.dof + B.dof)) :
 theorem prod_dr_expinv (a : Vec α (A.dof + B.dof)) :
     (Bundle.prod A B).dr_expinv a = Bundle.bdiag (A.dr_expinv (Bundle.fst a)) (B.dr_expinv (Bundle.snd a)) := rfl
 
-/-- `d2r_exp` of a product, entrywise: the two parts' Hessians placed at block starts `0` and
-    `A.dof` (the `memoM` wrappers of the executable model are the identity) -/
-theorem prod_d2r_exp_apply (a : Vec α (A.dof + B.dof)) (R : Fin (A.dof + B.dof))
+/-- `d2r_exp` of a product, entrywise: rows below `A.dof` carry `A`'s Hessian placed at block start `0`, the others `B`'s
+    placed at block start `A.dof` (the `memoM` wrappers of the executable model are the identity); any `[Scalar α]` -/
+theorem prod_d2r_exp_ite (a : Vec α (A.dof + B.dof)) (R : Fin (A.dof + B.dof))
     (C : Fin ((A.dof + B.dof) * (A.dof + B.dof))) :
     (Bundle.prod A B).d2r_exp a R C =
-      Bundle.hessPlace (A.dof + B.dof) 0 (A.d2r_exp (Bundle.fst a)) R C +
-      Bundle.hessPlace (A.dof + B.dof) A.dof (B.d2r_exp (Bundle.snd a)) R C := by
+      if R.val < A.dof then Bundle.hessPlace (A.dof + B.dof) 0 (A.d2r_exp (Bundle.fst a)) R C
+      else Bundle.hessPlace (A.dof + B.dof) A.dof (B.d2r_exp (Bundle.snd a)) R C := by
   show (Bundle.prodD2rExp A B a) R C = _
   simp only [Bundle.prodD2rExp, memoM_eq, Mat.of_get]
 
-theorem prod_d2r_expinv_apply (a : Vec α (A.dof + B.dof)) (R : Fin (A.dof + B.dof))
+theorem prod_d2r_expinv_ite (a : Vec α (A.dof + B.dof)) (R : Fin (A.dof + B.dof))
     (C : Fin ((A.dof + B.dof) * (A.dof + B.dof))) :
     (Bundle.prod A B).d2r_expinv a R C =
-      Bundle.hessPlace (A.dof + B.dof) 0 (A.d2r_expinv (Bundle.fst a)) R C +
-      Bundle.hessPlace (A.dof + B.dof) A.dof (B.d2r_expinv (Bundle.snd a)) R C := by
+      if R.val < A.dof then Bundle.hessPlace (A.dof + B.dof) 0 (A.d2r_expinv (Bundle.fst a)) R C
+      else Bundle.hessPlace (A.dof + B.dof) A.dof (B.d2r_expinv (Bundle.snd a)) R C := by
   show (Bundle.prodD2rExpinv A B a) R C = _
   simp only [Bundle.prodD2rExpinv, memoM_eq, Mat.of_get]
+
+/-- the row decides which placement can be non-zero: if the two zero laws hold, the entry is also the SUM of the two
+    placements (the form the ℝ-theorems below and C19 work with) -/
+theorem ite_eq_placeSum (h1 : ∀ x : α, x + nat 0 = x) (h2 : ∀ x : α, nat 0 + x = x) {dA dB : Nat}
+    (HA : Mat α dA (dA * dA)) (HB : Mat α dB (dB * dB)) (R : Fin (dA + dB)) (C : Fin ((dA + dB) * (dA + dB))) :
+    (if R.val < dA then Bundle.hessPlace (dA + dB) 0 HA R C else Bundle.hessPlace (dA + dB) dA HB R C)
+      = Bundle.hessPlace (dA + dB) 0 HA R C + Bundle.hessPlace (dA + dB) dA HB R C := by
+  by_cases h : R.val < dA
+  · rw [if_pos h, hessPlace_out (dA + dB) dA HB R C (fun hb => by have := hb.1; omega), h1]
+  · rw [if_neg h, hessPlace_out (dA + dB) 0 HA R C (fun hb => by have := hb.2.1; omega), h2]
 
 end prod
 
 /-! ### the sum of two placements with disjoint blocks, over ℝ -/
+
+/-- over ℝ the entry of the product Hessian is the sum of the two placements -/
+theorem prod_d2r_exp_apply (A B : LieModel ℝ) (a : Vec ℝ (A.dof + B.dof)) (R : Fin (A.dof + B.dof))
+    (C : Fin ((A.dof + B.dof) * (A.dof + B.dof))) :
+    (Bundle.prod A B).d2r_exp a R C =
+      Bundle.hessPlace (A.dof + B.dof) 0 (A.d2r_exp (Bundle.fst a)) R C +
+      Bundle.hessPlace (A.dof + B.dof) A.dof (B.d2r_exp (Bundle.snd a)) R C := by
+  rw [prod_d2r_exp_ite]
+  exact ite_eq_placeSum (fun x => by simp) (fun x => by simp) _ _ R C
+
+theorem prod_d2r_expinv_apply (A B : LieModel ℝ) (a : Vec ℝ (A.dof + B.dof)) (R : Fin (A.dof + B.dof))
+    (C : Fin ((A.dof + B.dof) * (A.dof + B.dof))) :
+    (Bundle.prod A B).d2r_expinv a R C =
+      Bundle.hessPlace (A.dof + B.dof) 0 (A.d2r_expinv (Bundle.fst a)) R C +
+      Bundle.hessPlace (A.dof + B.dof) A.dof (B.d2r_expinv (Bundle.snd a)) R C := by
+  rw [prod_d2r_expinv_ite]
+  exact ite_eq_placeSum (fun x => by simp) (fun x => by simp) _ _ R C
 
 /-- two blocks `[0,dA)` and `[dA, dA+dB)` cannot both contain the index triple -/
 theorem inBlock_disjoint {dA dB : Nat} (R : Fin (dA + dB)) (C : Fin ((dA + dB) * (dA + dB)))
